@@ -109,7 +109,7 @@ pub fn show_frames<'a>(ms: impl IntoIterator<Item = &'a Msg>) -> String {
 pub fn err_class(e: &ZmqError) -> &'static str {
   match e {
     ZmqError::ProtocolViolation(_) => "Proto",
-    ZmqError::SecurityError(_) => "Sec",
+    ZmqError::SecurityError(_) | ZmqError::InvalidCurveKey => "Sec",
     ZmqError::AuthenticationFailure(_) => "Auth",
     ZmqError::Timeout => "Timeout",
     ZmqError::InvalidState(_) => "InvalidState",
